@@ -12,14 +12,14 @@ import (
 
 // ObsCfg selects the observers run in a visited state.
 type ObsCfg struct {
-	Getters  bool // Empty, out-of-range Get/TypeOf, typed getter matrix, Slice/typed slices, Keys/Values/Dict
-	Equals   bool // Equals over all ordered pairs (obs.eq)
-	Index    bool // IndexOf/Contains/KeyOf (obs.io, obs.ko)
-	TF       bool // tree-form read table (obs.tf) over all paths up to TFLen
-	TFLen    int
-	MaxLen   int
-	Strings  bool // String()/ParseX round trip sanity
-	Malform  bool // malformed tree-form strings
+	Getters bool // Empty, out-of-range Get/TypeOf, typed getter matrix, Slice/typed slices, Keys/Values/Dict
+	Equals  bool // Equals over all ordered pairs (obs.eq)
+	Index   bool // IndexOf/Contains/KeyOf (obs.io, obs.ko)
+	TF      bool // tree-form read table (obs.tf) over all paths up to TFLen
+	TFLen   int
+	MaxLen  int
+	Strings bool // String()/ParseX round trip sanity
+	Malform bool // malformed tree-form strings
 }
 
 func typedGetL(l at.List, i int, k string) (v any, p any) {
